@@ -21,12 +21,20 @@ mod ops_cli;
 mod ops_anchors;
 mod ops_arena;
 mod ops_rt;
+mod ops_det;
+mod ops_c04;
+mod ops_cm;
+mod ops_c06;
 
 pub const COMPONENTS: &[fn(&str, &[String]) -> Option<String>] = &[
     ops_anchors::dispatch,
     ops_arena::dispatch,
+    ops_det::dispatch,
+    ops_c04::dispatch,
+    ops_c06::dispatch,
     ops_cli::dispatch,
     ops_rt::dispatch,
+    ops_cm::dispatch,
 ];
 
 #[allow(dead_code)]
